@@ -7,7 +7,7 @@ import ast
 from ..absint import Interp, Raised, State
 from ..absval import EnumV, HObj, Opaque, Text, new_text
 from ..core import Run
-from ..filetypestate import COMPILER, run_file_typestate, run_handler, scan_regions, set_state_fields, state_fields, token_literal
+from ..filetypestate import COMPILER, NOTE, run_file_typestate, run_handler, scan_regions, set_state_fields, state_fields, token_literal
 from ..grammar import FILE_LEXER, LexerGrammar
 from ..listener import rebuild, snap
 from ..pymodel import PyModel, walk_no_nested
@@ -21,69 +21,73 @@ DONE = {"CLOSED_TODO", "CANCELED_TODO"}
 
 
 def bullet_scan(run: Run, model: PyModel, ts, rid: str = "C12.R6") -> None:
-    """The headline/bullet property scan skips an optional modify date AND an optional ZID."""
-    regions = scan_regions(model, COMPILER)
-    loops = [stmt for lst in regions.values() for stmt, calls in lst if isinstance(stmt, ast.For) and calls]
-    if len(loops) != 1:
-        run.undecided(rid, "_add_note", f"expected one property-scan loop, found {len(loops)}")
+    """The headline / bullet property scan, evaluated abstractly through `_add_note` itself (wherever the scan lives: inline,
+    in module-level helpers or in a generator) on generic item bodies: an optional YYMMDD modify date and an optional ZID are
+    skipped before the `key::` word is looked for; bullets are scanned too; nothing is registered for bodies without `key::`."""
+    from ..absint import Interp
+    from .c01 import _chain
+
+    pre = _chain(ts, model, ts.tree0, [("exitComment", "comment", "HEAD"), ("exitHead", "head", "HEAD"), ("enterBlock", "block", "BLOCK"), ("enterItem", "item", "ITEM0"), ("enterBase_note", "base_note", "ITEM0")])
+    if pre is None:
+        run.undecided(rid, "_add_note", "cannot establish the listener state inside an item")
         return
-    loop = loops[0]
-    I = ts.interp
     fi = model.func(f"{COMPILER}._add_note")
-    shapes = {"K V": "KV", "D K V": "DKV", "Z K V": "ZKV", "D Z K V": "DZKV", "D": "D", "Z": "Z", "D Z": "DZ", "": ""}
-    for name, letters in shapes.items():
+    shapes = [
+        ("key first", "k:: v w", ["k"]),
+        ("modify date, key", "240102 k:: v", ["k"]),
+        ("ZID, key", "240101#00 k:: v", ["k"]),
+        ("modify date, ZID, key", "240102 240101#00 k:: v w", ["k"]),
+        ("modify date only", "240102", []),
+        ("ZID only", "240101#00", []),
+        ("modify date and ZID only", "240102 240101#00", []),
+        ("plain text", "240101#00 some text", []),
+        ("bullets", "240101#00 text\n  * k:: v\n  * 240102 j:: u", ["k", "j"]),
+    ]
+    n = 0
+    for label, body, want in shapes:
         st = State()
-        root = rebuild(set_state_fields(ts.tree0, in_note=True, in_first_comment=False), st)
-        words = {c: new_text({c}, "word") for c in letters}
-        for c, t in words.items():
-            st.facts[(t.tid, "is_short_date_spec")] = c == "D"
-            st.facts[(t.tid, "is_zid")] = c == "Z"
-            st.facts[(t.tid, "endswith", ("::",))] = c == "K"
-            st.facts[(t.tid, "nonempty")] = True
-        calls = []
+        root = rebuild(pre, st)
 
         def prop_probe(I2, args, kwargs, s, node):
-            calls.append(args[1] if len(args) > 1 else None)
+            s.trace.append(("prop", args[1] if len(args) > 1 else None))
             return [(None, s)]
 
-        def split_hook(I2, recv, nm, args, kwargs, s, node, letters=letters, words=words):
-            if recv.cls == "bullet" and nm == "split":
-                return [(s.alloc(HObj("list", items=[words[c] for c in letters])), s)]
+        def meth(I2, recv, nm, a, k, s, node, body=body):
+            if recv.cls == "bodyctx" and nm == "getText":
+                return [(body, s)]
             return None
 
-        old_p = dict(I.probes)
-        I.probes[f"{COMPILER}._add_prop"] = prop_probe
-        orig = I.probes.get("method:*")
-        I.probes["method:*"] = lambda I2, recv, nm, a, k, s, node, orig=orig: (split_hook(I2, recv, nm, a, k, s, node) or (orig(I2, recv, nm, a, k, s, node) if orig else None))
-        hook = I.stmt_hook
-        I.stmt_hook = None
-        st.frames[-1].update({"self": root, loop.iter.id if isinstance(loop.iter, ast.Name) else "bullets": st.alloc(HObj("list", items=[Opaque("bullet")]))})
-        I.ctx_stack.append((fi.module, fi.cls))
+        def attr(I2, v, name, s, node):
+            if v.cls == "bodyctx" and name in ("start", "stop"):
+                return [(Opaque("tok"), s)]
+            if v.cls == "tok" and name == "line":
+                return [(3, s)]
+            return None
+
+        I = Interp(model, probes={f"{COMPILER}._add_prop": prop_probe, "method:bodyctx": meth, "getattr:bodyctx": attr, "getattr:tok": attr, NOTE: lambda I2, a, k, s, nd: [(Opaque("note"), s)]})
         try:
-            res = I.exec_block([loop], st)
-        finally:
-            I.ctx_stack.pop()
-            I.probes.clear()
-            I.probes.update(old_p)
-            I.stmt_hook = hook
-        raised = [v for s, o, v in res if o == "raise"]
-        imprecise = [x for s, o, v in res for x in s.imprecise]
-        if imprecise:
-            run.undecided(rid, "_add_note", f"shape [{name}]: " + "; ".join(imprecise[:2]))
+            res = I.run_function(f"{COMPILER}._add_note", [root, Opaque("bodyctx")], st=st)
+        except Exception as e:
+            run.undecided(rid, "_add_note", f"[{label}]: cannot interpret: {type(e).__name__}: {str(e)[:100]}")
             continue
-        if raised:
-            run.refuted("C08.R1" if rid.startswith("C08") else rid, "_add_note", f"scan over words [{name}] raises {raised[0].exc}",
-                        f"the property scan raises {raised[0].exc} on a line whose words are [{name}] (D = modify date, Z = ZID, K = 'key::')", file=FILE_C, node=loop)
-            continue
-        if "K" in letters:
-            labels = [sorted(c.labels) if isinstance(c, Text) else None for c in calls]
-            ok = len(calls) == 1 and labels[0] == ["K"]
-            run.check(rid, f"words [{name}]: the property key is the first word after the optional date and ZID", ok, "_add_note", f"[{name}] -> keys {labels}",
-                      f"for a line whose words are [{name}] (D = YYMMDD modify date, Z = ZID, K = 'key::') the scan registers keys {labels} instead of K: "
-                      "a headline property of a note that carries both a modify date and a ZID is lost", file=FILE_C, node=loop)
-        else:
-            run.check(rid, f"words [{name}]: nothing is registered and nothing crashes", not calls, "_add_note", f"[{name}] -> {len(calls)} calls",
-                      f"the scan registers a property for a line without any 'key::' word ([{name}])", file=FILE_C, node=loop)
+        for v, s in res:
+            n += 1
+            keys = [t[1] for t in s.trace if t[0] == "prop"]
+            if s.imprecise:
+                run.undecided(rid, "_add_note", f"[{label}]: " + "; ".join(s.imprecise[:2]))
+                continue
+            if isinstance(v, Raised) and v.exc in ("IndexError", "ValueError", "KeyError", "TypeError", "AttributeError"):
+                run.refuted("C08.R1" if rid.startswith("C08") else rid, "_add_note", f"scan over [{label}] raises {v.exc}",
+                            f"compiling an item whose body is {body!r} ({label}) raises {v.exc}", file=FILE_C, node=fi.node)
+                continue
+            if want:
+                run.check(rid, f"[{label}]: the property key is the first word after the optional date and ZID", keys == want, "_add_note", f"[{label}] -> keys {keys}",
+                          f"for an item body {body!r} ({label}) the scan registers the keys {keys} instead of {want}: "
+                          "a headline property of a note that carries both a modify date and a ZID is lost (or a bullet property is missed)", file=FILE_C, node=fi.node)
+            else:
+                run.check(rid, f"[{label}]: nothing is registered and nothing crashes", not keys, "_add_note", f"[{label}] -> {keys}",
+                          f"the scan registers the properties {keys} for a body without any 'key::' word ({body!r})", file=FILE_C, node=fi.node)
+    run.floor("property-scan evaluations", n, 9)
 
 
 def check(run: Run) -> None:
@@ -170,14 +174,16 @@ def check(run: Run) -> None:
                   f"the character {m.value!r} emitted for {m.member} compiles back to {sorted(outs)}", file=FILE_C)
 
     # ---- R4
+    from ..flatten import flat_info
+
     for q, nm in (("zorg.service.swog._executor._select_note", "_select_note"), ("zorg.storage.file._manager.FileManager.add_note", "add_note")):
-        f = model.func(q)
+        f = flat_info(model, q)
         uses = any(isinstance(c, ast.Call) and isinstance(c.func, ast.Attribute) and c.func.attr == "to_string" for c in ast.walk(f.node))
         own = [j for j in ast.walk(f.node) if isinstance(j, ast.JoinedStr) and any(isinstance(v, ast.FormattedValue) and "body" in ast.unparse(v.value) for v in j.values)]
         run.check("C12.R4", f"{nm} renders notes through Note.to_string only", uses and not own, nm, own[0] if own else "to_string", f"{nm} builds item text itself instead of calling Note.to_string", file=f.file, node=f.node)
 
     # ---- R5
-    fr = model.func(F_REFRESH)
+    fr = flat_info(model, F_REFRESH, exclude=(F_REFRESH.rsplit(".", 1)[0] + "._is_zoq_header_line",))
     se = ShapeEval(model, fr)
     writes = [c for c in ast.walk(fr.node) if isinstance(c, ast.Call) and isinstance(c.func, ast.Attribute) and c.func.attr in ("write", "write_text")]
     run.floor("page writes in refresh_zoq_file_with_session", len(writes), 1)
